@@ -456,6 +456,10 @@ pub enum Op {
     MutBig(u8, u16),
     /// Pre-spawn an entity on client `c` and register the mapping for `slot` on the server.
     MapPre(u8, u8),
+    /// Same, but the server entity starts without the replication marker (`Mark` comes later).
+    MapPreUnmarked(u8, u8),
+    /// Client `c` despawns its pre-spawned entity for `slot` before the mapping arrived.
+    DespawnPre(u8, u8),
 }
 
 impl Op {
@@ -484,6 +488,8 @@ impl Op {
             Op::InsBig(s, l) => format!("insert Big({l}) on e{}", s + 1),
             Op::MutBig(s, l) => format!("mutate Big({l}) of e{}", s + 1),
             Op::MapPre(c, s) => format!("prespawn on c{c} + map e{}", s + 1),
+            Op::MapPreUnmarked(c, s) => format!("prespawn on c{c} + map unmarked e{}", s + 1),
+            Op::DespawnPre(c, s) => format!("c{c} despawns its prespawned entity for e{}", s + 1),
         }
     }
 }
@@ -532,6 +538,13 @@ pub struct Sim {
     pub server_panicked: bool,
     /// Pre-spawned client entities: (client, slot) -> client entity.
     pub prespawned: BTreeMap<(usize, u8), Entity>,
+    /// Pre-spawned entities the client despawned again before the mapping arrived.
+    pub pre_despawned: BTreeSet<(usize, u8)>,
+    /// Messages the server produced for a connection that no longer exists.
+    pub orphan_messages: u32,
+    pub server_stopped_pending_reset: bool,
+    /// Confirmed tick seen last per (client, client entity) - C02 oracle state.
+    pub prev_confirmed: BTreeMap<(usize, u64), u32>,
 }
 
 impl Sim {
@@ -563,6 +576,10 @@ impl Sim {
             steps: Vec::new(),
             server_panicked: false,
             prespawned: BTreeMap::new(),
+            pre_despawned: BTreeSet::new(),
+            orphan_messages: 0,
+            server_stopped_pending_reset: false,
+            prev_confirmed: BTreeMap::new(),
         };
         sim.snaps.insert(0, Snap::new());
         sim.vis_snaps
@@ -707,10 +724,23 @@ impl Sim {
             Op::ClearParent(s) => self.alive(s).is_some_and(|e| self.has_tag(e, TCHILD)),
             Op::InsBig(s, _) => self.alive(s).is_some_and(|e| !self.has_tag(e, TBIG)),
             Op::MutBig(s, _) => self.alive(s).is_some_and(|e| self.has_tag(e, TBIG)),
-            Op::MapPre(c, s) => {
+            Op::MapPre(c, s) | Op::MapPreUnmarked(c, s) => {
                 self.alive(s).is_none()
                     && !self.prespawned.contains_key(&(c as usize, s))
                     && self.is_authorized(c as usize)
+            }
+            // Only before the mapping reached the client (afterwards the entity is replicated
+            // state and despawning it locally is outside the property).
+            Op::DespawnPre(c, s) => {
+                self.prespawned.get(&(c as usize, s)).is_some_and(|pre| {
+                    let app = &self.clients[c as usize].app;
+                    app.world().get_entity(*pre).is_ok()
+                        && !app
+                            .world()
+                            .resource::<ServerEntityMap>()
+                            .to_server()
+                            .contains_key(pre)
+                })
             }
         }
     }
@@ -882,17 +912,25 @@ impl Sim {
                 let mut em = self.server.world_mut().entity_mut(e);
                 set_or_insert(&mut em, is_mut, Big(big_val(s + 1, v, len as usize)));
             }
-            Op::MapPre(c, s) => {
+            Op::DespawnPre(c, s) => {
+                let pre = self.prespawned[&(c as usize, s)];
+                self.clients[c as usize].app.world_mut().entity_mut(pre).despawn();
+                self.pre_despawned.insert((c as usize, s));
+            }
+            Op::MapPre(c, s) | Op::MapPreUnmarked(c, s) => {
                 // The client spawns its entity in advance; the server spawns its own and
                 // registers the correspondence before the entity is first replicated.
                 let pre = self.clients[c as usize].app.world_mut().spawn_empty().id();
                 self.prespawned.insert((c as usize, s), pre);
                 let etag = s + 1;
-                let id = self
-                    .server
-                    .world_mut()
-                    .spawn((Replicated, A(val(etag, TA, v))))
-                    .id();
+                let id = if matches!(op, Op::MapPre(..)) {
+                    self.server
+                        .world_mut()
+                        .spawn((Replicated, A(val(etag, TA, v))))
+                        .id()
+                } else {
+                    self.server.world_mut().spawn(A(val(etag, TA, v))).id()
+                };
                 self.ents[s as usize] = Some(id);
                 let conn = self.clients[c as usize].conn.unwrap();
                 self.server
@@ -950,7 +988,18 @@ impl Sim {
                 .feat(format!("at:{}", short_loc(&loc))));
         }
         let now = self.server_tick();
-        let is_tick = now != before;
+        if self.server_stopped_pending_reset && now < before {
+            // The server was stopped: tick numbering restarts, old snapshots are meaningless.
+            self.snaps.clear();
+            self.vis_snaps.clear();
+            self.auth_snaps.clear();
+            self.snaps.insert(0, Snap::new());
+            self.vis_snaps
+                .insert(0, vec![BTreeSet::new(); self.clients.len()]);
+            self.auth_snaps.insert(0, vec![false; self.clients.len()]);
+            self.server_stopped_pending_reset = false;
+        }
+        let is_tick = now != before && !(now < before);
         self.last_frame_was_tick = is_tick;
         self.last_tick = now;
         if is_tick {
@@ -979,6 +1028,7 @@ impl Sim {
         for (conn, ch, bytes) in sent {
             let Some(c) = self.clients.iter().position(|cl| cl.conn == Some(conn)) else {
                 // Message for a connection the harness no longer knows: dropped by the transport.
+                self.orphan_messages += 1;
                 conn.to_bits().hash(&mut self.trace);
                 continue;
             };
@@ -1171,6 +1221,103 @@ impl Sim {
         }
     }
 
+    /// Transport-level server stop: every client is disconnected, in-flight traffic is lost and
+    /// tick numbering starts again, so the per-tick snapshots of the old run are dropped.
+    pub fn stop_server(&mut self) {
+        self.server
+            .world_mut()
+            .resource_mut::<RepliconServer>()
+            .set_running(false);
+        for c in 0..self.clients.len() {
+            self.disconnect(c);
+        }
+        self.server_stopped_pending_reset = true;
+    }
+
+    pub fn start_server(&mut self) {
+        self.server
+            .world_mut()
+            .resource_mut::<RepliconServer>()
+            .set_running(true);
+    }
+
+    pub fn server_running(&self) -> bool {
+        self.server.world().resource::<RepliconServer>().is_running()
+    }
+
+    /// C02 oracle: every mapped entity's continuously replicated components equal the server's
+    /// snapshot at the entity's confirmed tick, and the confirmed tick never decreases.
+    pub fn check_confirmed(&mut self, c: usize, view: &ClientView) -> Result<(), Violation> {
+        for (e, ce) in &view.ents {
+            let Some(t) = ce.last_tick else { continue };
+            let key = (c, ce.client_bits);
+            if let Some(&prev) = self.prev_confirmed.get(&key) {
+                if t < prev {
+                    return Err(Violation::new(
+                        "",
+                        "confirmed-tick-decreased",
+                        format!(
+                            "client c{c} entity {}: confirmed tick {prev} -> {t}",
+                            fmt_bits(*e)
+                        ),
+                    ));
+                }
+            }
+            self.prev_confirmed.insert(key, t);
+            let Some(snap) = self.snaps.get(&t) else {
+                return Err(Violation::new(
+                    "",
+                    "unknown-confirmed-tick",
+                    format!(
+                        "client c{c} entity {}: confirmed tick {t} was never a server tick",
+                        fmt_bits(*e)
+                    ),
+                ));
+            };
+            let server = snap.get(e);
+            for (tag, val) in &ce.comps {
+                if *tag == TP || *tag == TO {
+                    continue;
+                }
+                let sv = server.and_then(|s| s.get(tag));
+                if sv != Some(val) {
+                    return Err(Violation::new(
+                        "",
+                        "value-mismatch",
+                        format!(
+                            "client c{c} entity {} confirmed tick {t}: {} is {} on the client, the server had {} at that tick",
+                            fmt_bits(*e),
+                            ctag_name(*tag),
+                            val.show(),
+                            sv.map(|v| v.show()).unwrap_or("nothing".into())
+                        ),
+                    )
+                    .feat(format!("comp:{}", ctag_name(*tag))));
+                }
+            }
+            if let Some(s) = server {
+                for tag in s.keys() {
+                    if *tag == TP || *tag == TO {
+                        continue;
+                    }
+                    if !ce.comps.contains_key(tag) {
+                        return Err(Violation::new(
+                            "",
+                            "missing-component",
+                            format!(
+                                "client c{c} entity {} confirmed tick {t}: the server had {} at that tick, the client has none",
+                                fmt_bits(*e),
+                                ctag_name(*tag)
+                            ),
+                        )
+                        .feat(format!("comp:{}", ctag_name(*tag))));
+                    }
+                }
+            }
+        }
+        Ok(())
+    }
+
     /// Convergence oracle (C01): client `c`'s view equals the visible replicated server state.
     /// The violation's property is left empty (the calling cell owns it).
     pub fn converged(
@@ -1248,7 +1395,21 @@ impl Sim {
                 }
             }
         }
-        for e in view.ents.keys() {
+        let premapped: BTreeSet<u64> = self
+            .prespawned
+            .iter()
+            .filter(|(k, _)| k.0 == c)
+            .map(|(_, e)| e.to_bits())
+            .collect();
+        for (e, ce) in view.ents.iter() {
+            // A pre-spawned entity whose mapping arrived ahead of the (not yet replicated or
+            // not yet visible) server entity is held by design.
+            if !expected.contains_key(e) && premapped.contains(&ce.client_bits) && !server.contains_key(e) {
+                continue;
+            }
+            if !expected.contains_key(e) && premapped.contains(&ce.client_bits) && !self.visible_now(c, *e) {
+                continue;
+            }
             if !expected.contains_key(e) {
                 return Err(Violation::new(
                     "",
